@@ -242,6 +242,9 @@ func TestC08(t *testing.T) {
 	r := ev.New("C08", "exploration",
 		"in-memory tables whose columns are declared nullable or NOT nullable (values conform to the declared types; plus object, nullable object, list and Int|String union columns) x well-typed queries: the typed grammar (expressions to depth 3, DISTINCT, ORDER BY, LIMIT, subqueries), GROUP BY with all aggregates, inner/lookup/left/right/outer joins, and hand-written items over int()/float() of strings, string(), :: casts, -> field access on (nullable) objects, list indexing, COALESCE (incl. NULL literals and an all-NULL column), int() of NaN/Inf/huge floats, IN, position, parse_time, tuples, subquery expressions; "+
 			"typechecked, optimised (50%), materialised and run by the real pipeline in-process; oracle: every value of every output row inhabits the type the plan reports for its column (the type --describe prints): harness-own Conforms predicate. non-trivial: the query applies a function and some output value is NULL. distinct = canonical case JSON",
-		"queries the typechecker rejects are discarded (counted); a reported run-time error is not a typing question")
+		"queries the typechecker rejects are discarded (counted); a reported run-time error is not a typing question",
+		"describe_cli (the real binary, server mode, every suspicious observation re-made with one-shot processes): generated CSV / JSON files (NULL cells = empty CSV fields, explicit nulls or missing JSON keys; nested JSON columns: objects with optional fields, nullable objects, lists of numbers and NULLs, lists of objects, a number-or-string column, an always-NULL column) x queries from the typed grammar with division (single source, GROUP BY, 2-3 table joins of every kind, the wide grammar) and hand-written items (conversions of strings, field access, indexing, :: assertions, COALESCE, tuples, subquery expressions, times, durations, aggregates over nested values, self outer joins, ORDER BY / LIMIT) plus a share of ill-typed queries; `<query> --describe -o json` is parsed (name, printed type syntax of octosql.Type.String) and compared with the rows `<query> -o json` prints: same column names in every row, every value is a possible JSON rendering of an inhabitant of the described type (null only where the type admits NULL), and --describe exits 0 exactly when the query is not rejected before it runs. non-trivial: at least one row and a null value or a union / list / object / tuple column. describe_type_syntax: the type-text parser inverts the real Type.String on generated normal-form types",
+		"describe_cli: JSON cannot tell Int from Float for integral numbers and prints Time / Duration as strings - every reading the encoding allows is accepted; rows are checked as printed (retractions of outer joins are ordinary rows there and must conform too); output holding a bare Inf / NaN token is not JSON and is discarded (C09)")
 	ev.Check(t, r, "values_conform_to_reported_types", ev.N(120000, 3000000), genCase, c08Prop)
+	registerDescribeCLI(t, r)
 }
